@@ -356,6 +356,26 @@ def extendCommitmentWithPk (c : Commitment) (revealed : List Int) (pk : PublicKe
     let v ← extendLoop pk.N bases revealed ix 0 c.value
     pure ⟨v, c.randomness⟩
 
+/-- the loop of `extend_commitment_with_commitment_pk`: unlike `extend_commitment_with_pk` the message
+list is indexed by ATTRIBUTE POSITION (`messages[i]`), not by a running counter. -/
+def extendCpkLoop (N : Int) (gBases msgs : List Int) : List Nat → Int → M Int
+  | [], acc => pure acc
+  | i :: is, acc => do
+    let a ← idx gBases i
+    let m ← idx msgs i
+    let x ← pw a m N
+    extendCpkLoop N gBases msgs is (tmod (acc * x) N)
+
+/-- `extend_commitment_with_commitment_pk(&mut self, messages, commitment_pk, revealed_message_indexes)`. -/
+def extendCommitmentWithCpk (c : Commitment) (msgs : List Int) (cpk : CommitmentPK)
+    (revIdx : Option (List Nat)) : M Commitment := do
+  let ix := revIdx.getD (List.range msgs.length)
+  let v ← extendCpkLoop cpk.N cpk.gBases msgs ix c.value
+  pure ⟨v, c.randomness⟩
+
+/-- `CL03Message::map_message_to_integer_as_hash`: the digest of the bytes as a big-endian integer. -/
+def mapMessageToIntegerAsHash (data : Bytes) : Int := Int.ofNat (os2ip (sha256 data))
+
 /-! ### `src/cl03/sigma_protocols.rs` -/
 
 structure NISPSecrets where
